@@ -278,7 +278,7 @@ def boost(raw):
             f["inpub"] = True
     for e in raw.get("enums", []):
         e["inpub"] = True
-    return raw
+    return hgen.with_arith_family(raw, pairs=True)
 
 
 NATIVE_PRELUDE = r"""
@@ -508,7 +508,7 @@ def judge(case, ctx):
             raise core.Broken("generated native driver does not compile: " + c03._errlines(c.err) + "\n" + "\n".join(native[:40]))
         c = bindgen.cc(d, "l_igate.cxx", "l_igate.o", lib=lib, python=True)
         if c.rc != 0:
-            return Outcome(ok=True, classes=classes + ["code-does-not-compile"])        # C03's business
+            return Outcome(ok=True, classes=classes + ["code-does-not-compile", "cdnc:" + (bindgen.first_errors(c.err.decode("latin-1")) or ["?"])[0]])        # C03's business
         objs = ["l_igate.o", "impl.o"]
         if be == "-python":
             rm = igate.interrogate_module(d, ["l.in"], opts=["-python"], module="m", library="m")
